@@ -26,10 +26,14 @@ func (e *errDisp) VarlinkDispatch(ctx context.Context, c varlink.Call, method st
 		Params *json.RawMessage `json:"params"`
 		Which  string           `json:"which"`
 		Arg    string           `json:"arg"`
+		Cont   bool             `json:"cont"`
 	}
 	if err := c.GetParameters(&in); err != nil {
 		return c.ReplyInvalidParameter(ctx, "parameters")
 	}
+	// a streaming handler that runs into an error has Continues still set ("the reply being sent is not the
+	// last one" concerns Reply; error replies never carry it)
+	c.Continues = in.Cont
 	switch method {
 	case "Err":
 		var p interface{}
@@ -38,6 +42,7 @@ func (e *errDisp) VarlinkDispatch(ctx context.Context, c varlink.Call, method st
 		}
 		if err := c.ReplyError(ctx, in.Name, p); err != nil {
 			*e.refusals++
+			c.Continues = false
 			return c.Reply(ctx, map[string]bool{"refused": true})
 		}
 		return nil
@@ -49,6 +54,7 @@ func (e *errDisp) VarlinkDispatch(ctx context.Context, c varlink.Call, method st
 		// refused whatever the parameters are
 		if err := c.ReplyError(ctx, in.Name, c12ReservedParams()[in.Which]); err != nil {
 			*e.refusals++
+			c.Continues = false
 			return c.Reply(ctx, map[string]bool{"refused": true})
 		}
 		return nil
@@ -267,10 +273,10 @@ func c12Body(d c12Desc, tier string) func() {
 				}
 			}
 			for _, which := range []string{"InterfaceNotFound", "MethodNotFound", "MethodNotImplemented", "InvalidParameter"} {
-				for _, arg := range []string{"", "a.b", "é\"\x00<&>", strings.Repeat("x", 5000)} {
+				for ai, arg := range []string{"", "a.b", "é\"\x00<&>", strings.Repeat("x", 5000), "a.b"} {
 					nlog := len(c.Log)
 					var out interface{}
-					err := conn.Call(live, "t.e.Typed", map[string]string{"which": which, "arg": arg}, &out)
+					err := conn.Call(live, "t.e.Typed", map[string]interface{}{"which": which, "arg": arg, "cont": ai == 4}, &out)
 					st.calls++
 					got := ""
 					switch e := err.(type) {
@@ -298,8 +304,11 @@ func c12Body(d c12Desc, tier string) func() {
 		}
 		names := c12Names(tier)
 		for _, name := range names[d.From:d.To] {
-			for _, ps := range c12Params {
+			for pi, ps := range append(append([]string(nil), c12Params...), c12Params[1]) {
 				in := map[string]interface{}{"name": name}
+				if pi == len(c12Params) {
+					in["cont"] = true // the handler has Continues set when it sends the error
+				}
 				if ps != "" {
 					in["params"] = json.RawMessage(ps)
 				}
